@@ -96,7 +96,7 @@ func runC28(c *core.Ctx) error {
 		var small []NamedBase
 		var idx []int
 		for i, b := range bases {
-			if len(small) < 5 {
+			if len(small) < 8 {
 				small = append(small, b)
 				idx = append(idx, i+1)
 			}
@@ -226,6 +226,89 @@ func runC28(c *core.Ctx) error {
 	}
 	c.Set("unsound_acceptances_by_single_edit", roots)
 	c.Set("unsound_two_edit_pairs_explained_by_a_single_edit_finding", explained)
+
+	// cross-check with really generated code (tl2gen --language=go): the model's bytes of every old value are read and
+	// rewritten by the old code (binds the spec's wire model) and by the new code (the property itself)
+	{
+		isBad := map[int]bool{}
+		for _, bi := range bad {
+			isBad[evCase[bi-1]] = true
+		}
+		var gp []genPair
+		var gpKey []string
+		seenLabel := map[string]bool{}
+		nGood := c.Pick(1, 14)
+		for _, i := range order {
+			pc := cases[i]
+			if pc.verdict != "accept" || len(pc.m.Log) == 0 || pc.genErr != "" {
+				continue
+			}
+			lbl := logLabel(pc.m.Log)
+			if seenLabel[lbl] {
+				continue
+			}
+			if isBad[i] {
+				ul := unsafeLabels(pc.m.Log)
+				if len(pc.m.Log) != 1 || len(ul) != 1 || !c.Thorough() {
+					continue // findings are re-confirmed with generated code in the thorough tier only (build time)
+				}
+				seenLabel[lbl] = true
+				gp = append(gp, genPair{Old: bases[pc.m.B-1].S, New: pc.m.New, Label: lbl})
+				gpKey = append(gpKey, "linter-accepts/"+ul[0])
+				continue
+			}
+			if nGood > 0 {
+				nGood--
+				seenLabel[lbl] = true
+				gp = append(gp, genPair{Old: bases[pc.m.B-1].S, New: pc.m.New, Label: lbl, ExpectWC: true})
+				gpKey = append(gpKey, "")
+			}
+		}
+		t1 := time.Now()
+		gr, err := codegenCrossCheck(c, gp)
+		if err != nil {
+			return err
+		}
+		confirmed := map[string]any{}
+		skipped := map[string]string{}
+		nCases, nPairsOK := 0, 0
+		for i, r := range gr {
+			nCases += r.Cases
+			if r.Skipped != "" {
+				skipped[gp[i].Label] = r.Skipped
+				continue
+			}
+			if len(r.OldFailures) > 0 {
+				return fmt.Errorf("wire model error: code generated from the OLD schema does not read/rewrite the model's encodings of old values (%s): %s\n%s",
+					gp[i].Label, strings.Join(r.OldFailures[:min(3, len(r.OldFailures))], "; "), RenderBody(gp[i].Old))
+			}
+			if r.ModelWC != gp[i].ExpectWC {
+				return fmt.Errorf("model verdict for %s changed between runs", gp[i].Label)
+			}
+			if gp[i].ExpectWC {
+				if len(r.NewFailures) > 0 {
+					return fmt.Errorf("model says %s is wire compatible but code generated from the NEW schema disagrees: %s\n%s\n--->\n%s",
+						gp[i].Label, strings.Join(r.NewFailures[:min(3, len(r.NewFailures))], "; "), RenderBody(gp[i].Old), RenderBody(gp[i].New))
+				}
+				nPairsOK++
+			} else {
+				if len(r.NewFailures) > 0 {
+					confirmed[gpKey[i]] = r.NewFailures[0]
+				} else {
+					confirmed[gpKey[i]] = "not observable through top-level objects of the generated code"
+				}
+			}
+		}
+		c.Set("generated_code_pairs_checked", len(gp))
+		c.Set("generated_code_wire_cases", nCases)
+		c.Set("generated_code_compatible_pairs_confirmed", nPairsOK)
+		c.Set("generated_code_confirmation_of_findings", confirmed)
+		c.Set("generated_code_pairs_skipped", skipped)
+		c.Logf("generated-code cross-check: %d pairs, %d wire cases in %v", len(gp), nCases, time.Since(t1).Round(time.Second))
+		if nPairsOK == 0 {
+			return fmt.Errorf("vacuous: no compatible pair was cross-checked with generated code")
+		}
+	}
 
 	// samples
 	ns := 0
